@@ -38,9 +38,9 @@ def src(e):
 class Fn:
     """One translated function: parameter types, result type."""
 
-    def __init__(self, cls, name, params, rtype, coqname, extra=''):
+    def __init__(self, cls, name, params, rtype, coqname, file='__init__.py'):
         self.cls, self.name, self.params, self.rtype = cls, name, params, rtype
-        self.coqname, self.extra = coqname, extra
+        self.coqname, self.file = coqname, file
 
 
 # model types: 'unit', 'qty', 'q', 'optq', 'bool', 'cmpop'
@@ -54,9 +54,14 @@ FUNCS = [
        'qty_cmp_impl'),
     Fn('Quantity', '__add__', [('self', 'qty'), ('other', 'qty')], 'qty', 'qty_add_impl'),
     Fn('Quantity', '__sub__', [('self', 'qty'), ('other', 'qty')], 'qty', 'qty_sub_impl'),
+    # converter.py: a TableConverter is its conversion table
+    Fn('TableConverter', '_get_factor', [('self', 'table'), ('qty', 'qty'), ('to_unit', 'unit')],
+       'optq', 'table_factor_impl', 'converter.py'),
+    Fn('Converter', '__call__', [('self', 'table'), ('qty', 'qty'), ('to_unit', 'unit')],
+       'optq', 'table_call_impl', 'converter.py'),
 ]
 COQTYPE = {'unit': 'unit', 'qty': 'qty', 'q': 'Q', 'optq': 'option Q', 'bool': 'bool',
-           'cmpop': 'cmpop'}
+           'cmpop': 'cmpop', 'table': 'table'}
 
 
 class Tr:
@@ -104,6 +109,9 @@ class Tr:
 
     def q_of(self, e, env):
         """expression of type number -> Gallina term of type Q, or None"""
+        if isinstance(e, ast.Call) and isinstance(e.func, ast.Name) and e.func.id == 'cast' \
+                and len(e.args) == 2:
+            return self.q_of(e.args[1], env)            # typing.cast: identity at run time
         key = src(e)
         if key in env and env[key][0] == 'q':
             return env[key][1]
@@ -233,6 +241,13 @@ class Tr:
                     return f"unit_eq_impl {ua} {ub}"
             return f"Ok {self.cond(e, env)}"
         if rt == 'optq':
+            if isinstance(e, ast.Call) and isinstance(e.func, ast.Attribute) \
+                    and e.func.attr == '_get_factor' and isinstance(e.func.value, ast.Name) \
+                    and env.get(e.func.value.id, (None,))[0] == 'table' and len(e.args) == 2 \
+                    and isinstance(e.args[0], ast.Name) and env.get(e.args[0].id, (None,))[0] == 'qty' \
+                    and self.unit_of(e.args[1], env):
+                return (f"table_factor_impl {env[e.func.value.id][1]} {env[e.args[0].id][1]} "
+                        f"{self.unit_of(e.args[1], env)}")
             if isinstance(e, ast.Constant) and e.value is None:
                 return "Ok None"
             t, _ = self.optq_of(e, env)
@@ -326,6 +341,22 @@ class Tr:
             a = s.body[0]
             h = s.handlers[0]
             v = a.value
+            t = a.targets[0]
+            # factor, offset = self._unit_map[(u1, u2)]   except KeyError: ...
+            if isinstance(h.type, ast.Name) and h.type.id == 'KeyError' and h.name is None \
+                    and isinstance(t, ast.Tuple) and len(t.elts) == 2 \
+                    and all(isinstance(x, ast.Name) for x in t.elts) \
+                    and isinstance(v, ast.Subscript) and isinstance(v.value, ast.Attribute) \
+                    and v.value.attr == '_unit_map' and isinstance(v.value.value, ast.Name) \
+                    and env.get(v.value.value.id, (None,))[0] == 'table' \
+                    and isinstance(v.slice, ast.Tuple) and len(v.slice.elts) == 2:
+                ua, ub = (self.unit_of(x, env) for x in v.slice.elts)
+                if ua and ub:
+                    f, o = self.new(t.elts[0].id), self.new(t.elts[1].id)
+                    ok_env = dict(env, **{t.elts[0].id: ('q', f), t.elts[1].id: ('q', o)})
+                    return (f"match table_get {env[v.value.value.id][1]} (u_id {ua}) (u_id {ub}) with\n"
+                            f"| Some ({f}, {o}) => {self.block((s.orelse or []) + rest, ok_env)}\n"
+                            f"| None => {self.block(h.body + rest, env)}\nend")
             if isinstance(h.type, ast.Name) and h.type.id in ERR and h.name is None \
                     and isinstance(a.targets[0], ast.Name) and isinstance(v, ast.Call) \
                     and isinstance(v.func, ast.Attribute) and v.func.attr == '_get_factor' \
@@ -416,7 +447,9 @@ def find_method(tree, cls, name):
 
 PRELUDE = '''(* GENERATED by /verif/translate/qlayer.py from src/quantity/__init__.py
    (Unit.__eq__, Unit._get_factor, Quantity.equiv_amount, convert, __eq__,
-   _compare, __add__, __sub__).  Do not edit; rewritten on every run. *)
+   _compare, __add__, __sub__) and src/quantity/converter.py
+   (TableConverter._get_factor, Converter.__call__).
+   Do not edit; rewritten on every run. *)
 From QV Require Import Model.Num Model.Rounding Model.Quantity.
 Open Scope Z_scope.
 
@@ -435,10 +468,15 @@ Fixpoint first_answer (accept : option Q -> bool) (cs : list table) (q : qty) (t
 
 
 def generate(path):
-    tree = ast.parse(open(path, encoding='utf-8').read())
+    """path: src/quantity/__init__.py; converter.py is taken from the same directory"""
+    import os
+    trees = {}
     out = [PRELUDE]
     for fn in FUNCS:
-        m = find_method(tree, fn.cls, fn.name)
+        fp = os.path.join(os.path.dirname(path), fn.file)
+        if fp not in trees:
+            trees[fp] = ast.parse(open(fp, encoding='utf-8').read())
+        m = find_method(trees[fp], fn.cls, fn.name)
         names = [a.arg for a in m.args.args]
         if names != [p for p, _ in fn.params] or m.args.vararg or m.args.kwarg \
                 or m.args.kwonlyargs or m.args.defaults:
@@ -447,10 +485,10 @@ def generate(path):
         env = {p: (t, p) for p, t in fn.params}
         body = tr.block(m.body, env)
         params = ' '.join(f"({p} : {COQTYPE[t]})" for p, t in fn.params)
-        needs_ce = 'ce' in body.split() or '(ce ' in body or 'equiv_amount_impl ce' in body
+        needs_ce = '(ce ' in body or 'equiv_amount_impl ce' in body
         needs_dm = ' dm ' in body
         pre = ('(ce : convenv) ' if needs_ce else '') + ('(dm : mode) ' if needs_dm else '')
-        out.append(f"(* {fn.cls}.{fn.name} *)\nDefinition {fn.coqname} {pre}{params} "
+        out.append(f"(* {fn.cls}.{fn.name} ({fn.file}) *)\nDefinition {fn.coqname} {pre}{params} "
                    f": res ({COQTYPE[fn.rtype]}) :=\n{body}.\n")
     return "\n".join(out)
 
